@@ -88,7 +88,22 @@ def run(ctx, report):
         report.count('kind:' + ('ill-nested' if ill else 'well-nested'))
         if outs[k] is not None:
             report.corr_case('writer', {'wd': wd, 'ds': ds, 'lx': lx, 'history': h}, outs[k], io_)
-        if ill or not same or not h:
+        if ill or not h:
+            continue
+        if not same:
+            # segments built with other delimiters: the ISA written must still carry the WRITER's delimiters
+            if '!' in io_:
+                continue
+            text = ''.join(bytes.fromhex(x).decode('latin-1') for x in io_.split('|') if x)
+            try:
+                src = pyx12.x12file.X12Reader(io.StringIO(text))
+                got_d = (src.seg_term, src.ele_term, src.subele_term)
+            except Exception as e:  # noqa
+                got_d = type(e).__name__
+            report.count('isa-delims-checked')
+            if got_d != tuple(wd):
+                report.fail('C11:isa-delimiters:%s' % h[0].split(ds[1])[12], 'the ISA written does not carry the writer\'s delimiters: '
+                            'reader derives %r, writer used %r' % (got_d, tuple(wd)), {'wd': wd, 'ds': ds, 'history': h, 'lx': lx}, text=text[:300])
             continue
         if io_.endswith('!X12Error') or '!' in io_:
             report.fail('C11:writer-raises', 'writer raised on a well-nested history', {'wd': wd, 'history': h}, got=io_[-60:])
